@@ -4,11 +4,16 @@ import KafVerif.Prelude.Driver
 Line-protocol driver for C28 (model of the proxy's metadata path).
 
 ops (one per line):
-  cfg <host> <port>
+  cfg <host> <port>     a NEW proxy (empty store, empty topic-name cache) with this advertised address
+  warm refresh|backends   refreshMetadataCache / currentBackends on that proxy (ghost cache := cacheOf snapshot)
+  resolve <tid>           resolveTopicID (refresh on a cache miss)
   snap brokers=<B,..|-> ctrl=<n> cluster=<s|~> topics=<T;..|->
         B = node:host:port   T = name|tid|err|internal|P,..   P = id:err:leader:epoch:r+..:i+..:o+..
   meta <v> <req>        req = all | empty | name@tid,name@tid,..      (name ~ = nil)
   coord <v> | nrmeta <v> <req> | nrcoord <v>
+`snap` changes the snapshot of the SAME proxy (`InMemoryStore.Update`); the state between two `cfg`
+lines is a `Session` of the model (current snapshot + ghost cache) advanced with `advance`, and
+every reply is `replyWith` of that session, i.e. a function of the CURRENT snapshot.
 Output: what a client decodes at version v, in the same text format.
 `--monitor`: every op line is followed by a line `> <implementation output>`; the driver
 evaluates the property predicates of KafVerif.Props.C28 (`onlyProxy`, `expectedShapes`,
@@ -96,11 +101,19 @@ def parseCoord (ws : List String) : Option Coord := do
          host := decS (← kv ws "host"), port := ← (← kv ws "port").toInt? }
 def showCoord (c : Coord) : String := s!"err={c.err} node={c.node} host={encS c.host} port={c.port}"
 
+def emptyMeta : Meta := { brokers := [], controller := 0, cluster := none, topics := [] }
+
 structure St where
   host : String := ""
   port : Int := 0
-  store : Meta := { brokers := [], controller := 0, cluster := none, topics := [] }
+  sess : Session := ⟨emptyMeta, []⟩
   pending : List String := []
+
+def St.store (s : St) : Meta := s.sess.snap
+
+/-- the model's reply to one Metadata request in the current session state -/
+def sessReply (s : St) (req : Option (List ReqTopic)) : Meta :=
+  (replyWith (fun _ m r => loadMetadata m r) s.host s.port s.sess (.request req)).getD emptyMeta
 
 /-- A shape after version masking (what `wireTopic` does, on shapes). -/
 def wireShape (v : Nat) (x : Shape) : Shape :=
@@ -110,13 +123,18 @@ def wireShape (v : Nat) (x : Shape) : Shape :=
 def modelStep (s : St) (ws : List String) : St × String :=
   match ws with
   | ["cfg", h, p] => match p.toInt? with
-    | some p => ({ s with host := decS h, port := p }, "ok")
+    | some p => ({ s with host := decS h, port := p, sess := ⟨emptyMeta, []⟩ }, "ok")
     | none => (s, "bad-op")
   | "snap" :: rest => match parseMeta rest with
-    | some m => ({ s with store := m }, "ok")
+    | some m => ({ s with sess := advance s.sess (.setSnapshot m) }, "ok")
+    | none => (s, "bad-op")
+  | ["warm", how] =>
+    if how = "refresh" || how = "backends" then ({ s with sess := advance s.sess .warm }, "ok") else (s, "bad-op")
+  | ["resolve", id] => match decId id with
+    | some id => ({ s with sess := advance s.sess (.resolve id) }, "ok")
     | none => (s, "bad-op")
   | ["meta", v, r] => match v.toNat?, parseReq r with
-    | some v, some req => (s, "meta " ++ showMeta (wire v (handleMetadata s.store req s.host s.port)))
+    | some v, some req => (s, "meta " ++ showMeta (wire v (sessReply s req)))
     | _, _ => (s, "bad-op")
   | "par" :: items =>
     let outs := items.map fun it =>
@@ -124,7 +142,7 @@ def modelStep (s : St) (ws : List String) : St × String :=
       | [v, r] => match v.toNat?, parseReq r with
         | some v, some req =>
           -- the batch is served by `serveConcurrent`; entry i is `handleMetadata` of request i
-          "meta " ++ showMeta (wire v (handleMetadata s.store req s.host s.port))
+          "meta " ++ showMeta (wire v (sessReply s req))
         | _, _ => "bad-op"
       | _ => "bad-op"
     (s, "par " ++ joinWith " || " outs)
@@ -144,19 +162,31 @@ def splitBars (ws : List String) : List (List String) :=
     | h :: t => (w :: h) :: t
     | [] => [[w]]) [[]]
 
-/-- `onlyProxy` + `topology_kept` of ONE reply relative to ITS OWN request. -/
+/-- What the seeded class `loadViaNameCache` (by-id requests translated through the topic-name
+cache) would answer with the ghost cache of the session — diagnosis / coverage only. -/
+def cachedShapes (s : St) (v : Nat) (req : Option (List ReqTopic)) : List Shape :=
+  ((buildResponse (loadViaNameCache s.sess.cache s.store req) s.host s.port).topics.map topicShape).map (wireShape v)
+
+/-- `onlyProxy` + `topology_kept` of ONE reply relative to ITS OWN request and the CURRENT snapshot. -/
 def metaBad (s : St) (v : Nat) (req : Option (List ReqTopic)) (impl : Meta) : List String :=
   let impl' := { impl with controller := if v ≥ 1 then impl.controller else 0 }
   (if onlyProxy impl' s.host s.port then [] else ["names-non-proxy-broker"]) ++
   (if impl.topics.map topicShape == (expectedShapes s.store req).map (wireShape v) then []
-   else ["topology-changed"])
+   else ["topology-changed"] ++
+     (if impl.topics.map topicShape == cachedShapes s v req then ["answered-via-topic-name-cache"] else []))
+
+/-- the request is one on which a proxy answering through the (ghost) name cache would be caught -/
+def discriminates (s : St) (v : Nat) (req : Option (List ReqTopic)) : Bool :=
+  cachedShapes s v req != (expectedShapes s.store req).map (wireShape v)
 
 def monitorStep (s : St) (ws : List String) : St × String :=
   match ws with
   | ">" :: out =>
     let res : String := match s.pending, out with
       | ["meta", v, r], "meta" :: rest => match v.toNat?, parseReq r, parseMeta rest with
-        | some v, some req, some impl => verdict (metaBad s v req impl)
+        | some v, some req, some impl =>
+          let r := verdict (metaBad s v req impl)
+          if r = "ok" && discriminates s v req then "ok cache-would-differ" else r
         | _, _, _ => "violation unparsable-reply"
       | "par" :: items, "par" :: rest =>
         let replies := splitBars rest
